@@ -493,7 +493,8 @@ def targets(eng):
     eng.inline.update({RL + "ReconnectLogic." + n for n in (
         "_async_set_connection_state_while_locked", "_async_set_connection_state_without_lock", "_async_log_connection_error", "_cancel_connect_timer",
         "_cancel_connect_task", "_cancel_connect", "_start_zc_listen", "_stop_zc_listen", "_connect_from_zeroconf", "_remove_stop_task")})
-    return [contract_target(c) for c in cs]
+    import contracts.native_reconnect as nr
+    return [contract_target(c, replay=(nr.replay_update_records if c.target.endswith("async_update_records") else None)) for c in cs]
 
 
 # built-in mutants of the real source text for the thorough tier's self-check (each must be refuted by a named obligation)
